@@ -33,3 +33,8 @@ pub use {
     self::types::*,
     self::verifier::{ProofVerifier, Verifier},
 };
+
+/// Verification hooks (feature `verif`, off by default): re-exports of crate-private
+/// items and a record-only tape of random draws. Adds no behaviour to the library.
+#[cfg(feature = "verif")]
+pub mod verif;
